@@ -1,7 +1,7 @@
 (* C06 -- loops with one explicit residual per iteration (CMTF, randomised CP, non-negative Tucker variants, HOOI):
    which iterate the last recorded value belongs to, for every oracle. *)
 From Coq Require Import List Arith Lia Bool.
-From TLV Require Import Model.Errors.
+From TLV Require Import Base.Shape Base.PyList Base.Tensor Base.BigSum Base.Ops Model.Errors Proofs.ErrorsProofs Proofs.ErrorsP2 Proofs.ErrorsTR.
 Import ListNotations.
 
 Section SL.
@@ -92,3 +92,93 @@ Example s_loop_every_entry_nonvacuous :
   snd (s_loop (fun st : nat => st) toy_s true true 5 0 0 []) = [fst (s_loop (fun st : nat => st) toy_s true true 1 0 0 []);
                                                                fst (s_loop (fun st : nat => st) toy_s true true 2 0 0 [])].
 Proof. vm_compute. reflexivity. Qed.
+
+(* ---- round 5: loop skeleton x algebra for the algorithms that report a SHORTCUT value inside a one-value-per-iteration loop.
+   fast = the value the code computes, true = the residual from scratch; Inv = what makes them equal (orthonormal factors for HOOI,
+   ring closure for tensor-ring ALS), established by every update and kept by the normalisation.  Then EVERY entry j of the returned
+   list is the from-scratch error of the iterate returned by the run cut after j+1 iterations. *)
+Section SLtrue.
+Variables (St E : Type) (fast true_ : St -> E) (Inv : St -> Prop) (Or : soracle St) (rbc normalize : bool).
+Hypothesis Hid : forall st, Inv st -> fast st = true_ st.
+Hypothesis Hupd : forall it st, Inv (s_update Or it st).
+Hypothesis HnormI : forall st, Inv st -> Inv (s_norm Or st).
+Hypothesis Hnorm : forall st, fast (s_norm Or st) = fast st.
+
+Lemma s_loop_inv : forall n it cur errs, 0 < n -> Inv (fst (s_loop fast Or rbc normalize n it cur errs)).
+Proof.
+  induction n as [|n IH]; intros it cur errs Hn; [lia|]. cbn [s_loop].
+  set (st := s_update Or it cur). set (stN := if normalize then s_norm Or st else st).
+  assert (HI : Inv stN) by (unfold stN; destruct normalize; [apply HnormI|]; apply Hupd).
+  destruct (s_cb_stop Or it); [exact HI|]. destruct (s_stop Or it); [exact HI|].
+  destruct n as [|n']; [exact HI|]. apply IH. lia.
+Qed.
+
+Theorem s_loop_every_entry_true n init j : j < length (snd (s_loop fast Or rbc normalize n 0 init [])) ->
+  nth_error (snd (s_loop fast Or rbc normalize n 0 init [])) j
+  = Some (true_ (fst (s_loop fast Or rbc normalize (S j) 0 init []))).
+Proof.
+  intros H. rewrite (s_loop_every_entry St E fast Or rbc normalize Hnorm n init j H). f_equal.
+  apply Hid. apply s_loop_inv. lia.
+Qed.
+End SLtrue.
+
+Section Compose.
+Context {F : Type} (Op : fops F).
+Hypothesis Rth : ring_theory (f0 Op) (f1 Op) (fadd Op) (fmul Op) (fsub Op) (fopp Op) (@eq F).
+
+(* HOOI (tucker / partial_tucker without mask): the iterate is the list of factor matrices, the core is recomputed as X x U^T after the
+   sweep, the reported quantity is norm^2 - norm(core)^2.  For EVERY oracle whose updates return column-orthonormal factors (the SVD
+   contract) every recorded value is the squared residual, from scratch, of the Tucker tensor of its iteration. *)
+Definition hooi_fast (s rs : list nat) (X : list nat -> F) (us : list (nat -> nat -> F)) : F := hooi_err2 Op s rs X (project Op s X us).
+Definition hooi_true (s rs : list nat) (X : list nat -> F) (us : list (nat -> nat -> F)) : F :=
+  dist2 Op s X (tucker_entry Op rs (project Op s X us) us).
+Theorem hooi_loop_reports_true_errors (s rs : list nat) (X : list nat -> F)
+        (upd : nat -> list (nat -> nat -> F) -> list (nat -> nat -> F)) (stop cb_stop : nat -> bool) (rbc : bool) :
+  (forall it us, orthonormal Op s rs (upd it us)) ->
+  let Or := mkS upd stop cb_stop (fun us => us) in
+  forall n init j, j < length (snd (s_loop (hooi_fast s rs X) Or rbc false n 0 init [])) ->
+  nth_error (snd (s_loop (hooi_fast s rs X) Or rbc false n 0 init [])) j
+  = Some (hooi_true s rs X (fst (s_loop (hooi_fast s rs X) Or rbc false (S j) 0 init []))).
+Proof.
+  intros Hupd Or n init j Hj.
+  apply (s_loop_every_entry_true _ _ (hooi_fast s rs X) (hooi_true s rs X) (orthonormal Op s rs) Or rbc false); auto.
+  intros us Ho. unfold hooi_fast, hooi_true. symmetry. now apply (hooi_error_identity Op Rth).
+Qed.
+
+(* tensor-ring ALS: the iterate is the list of cores, the reported quantity is the squared residual of the least-squares sub-problem of the
+   last mode.  For EVERY oracle whose updates keep the number of cores and the ring closure r_N = r_0, every recorded value is the squared
+   residual of the ring of its iteration. *)
+Definition tr_inv (s : list nat) (r0 : nat) (cores : list (@core F)) : Prop :=
+  length cores = length s /\ endbond r0 (map (fun c => (fst c, fun a b => snd c a 0 b)) cores) = r0.
+Theorem tr_loop_reports_true_errors (s : list nat) (X : list nat -> F) (r0 : nat)
+        (upd : nat -> list (@core F) -> list (@core F)) (stop cb_stop : nat -> bool) (rbc : bool) :
+  0 < length s -> (forall it cores, tr_inv s r0 (upd it cores)) ->
+  let Or := mkS upd stop cb_stop (fun c => c) in
+  let fast := fun cores => ls_residual2 Op s X r0 cores (length s - 1) in
+  forall n init j, j < length (snd (s_loop fast Or rbc false n 0 init [])) ->
+  nth_error (snd (s_loop fast Or rbc false n 0 init [])) j
+  = Some (dist2 Op s (tr_entry Op r0 (fst (s_loop fast Or rbc false (S j) 0 init []))) X).
+Proof.
+  intros Hs Hupd Or fast n init j Hj.
+  apply (s_loop_every_entry_true _ _ fast (fun cores => dist2 Op s (tr_entry Op r0 cores) X) (tr_inv s r0) Or rbc false); auto.
+  intros cores [Hl Hr]. unfold fast. apply (ls_residual_is_tr_error Op Rth); [exact Hl | lia | exact Hr].
+Qed.
+
+(* PARAFAC2: the iterate is (projections, A * weights, B, C), the reported quantity is the slice-wise expansion.  For EVERY oracle (updates,
+   line-search jumps with accept / reject decisions, stops, any normalisation that keeps the expansion's value) every recorded value is the
+   squared residual sum_i || X_i - B_i C^T ||^2, from scratch, of the iterate of its iteration; no hypothesis on the projections. *)
+Definition p2_state := ((nat -> nat -> nat -> F) * (nat -> nat -> F) * (nat -> nat -> F) * (nat -> nat -> F))%type.
+Definition p2_fast_of (I K Rk : nat) (J : nat -> nat) (X : nat -> nat -> nat -> F) (st : p2_state) : F :=
+  let '(P, A, Bm, C) := st in p2_err2_fast Op I K Rk J X P A Bm C (p2_tmp_proj Op Rk J X P A Bm).
+Definition p2_true_of (I K Rk : nat) (J : nat -> nat) (X : nat -> nat -> nat -> F) (st : p2_state) : F :=
+  let '(P, A, Bm, C) := st in p2_err2_true Op I K Rk J X P A Bm C.
+Theorem p2_loop_reports_true_errors (I K Rk : nat) (J : nat -> nat) (X : nat -> nat -> nat -> F) (Or : p2oracle p2_state) (ls normalize : bool) :
+  (forall st, p2_fast_of I K Rk J X (p2_norm Or st) = p2_fast_of I K Rk J X st) ->
+  forall n init j, j < length (snd (p2_loop (p2_fast_of I K Rk J X) Or ls normalize false n 0 init [])) ->
+  nth_error (snd (p2_loop (p2_fast_of I K Rk J X) Or ls normalize false n 0 init [])) j
+  = Some (p2_true_of I K Rk J X (fst (p2_loop (p2_fast_of I K Rk J X) Or ls normalize false (S j) 0 init []))).
+Proof.
+  intros Hnorm n init j Hj. rewrite (p2_loop_every_entry _ _ (p2_fast_of I K Rk J X) Or ls normalize Hnorm n init j Hj). f_equal.
+  destruct (fst _) as [[[P A] Bm] C]. unfold p2_fast_of, p2_true_of. apply (p2_err2_fast_proj_correct Op Rth).
+Qed.
+End Compose.
